@@ -118,6 +118,7 @@ def jws (prop : String) (e : Jws.Env) (exact : Jws.Member → String) (ci : Chai
     | none => some "content_returned_but_signed_header_does_not_decode"
     | some (ms, h) =>
       if c.extAttrs.any (fun a => match a.key with | .text k => Generated.jwsHeaderKeys.contains k | .int _ => true) then some "specification_header_among_attributes"
+      else if !(h.crit.all fun l => (ms.map (·.key)).contains l) then some "critical_label_names_no_present_header"
       else attrsRules (jwsExpectedAttrs ms h exact) c.extAttrs
   | _ => none
 
@@ -194,6 +195,7 @@ def cose (prop : String) (e : Cose.Env) (ci : ChainInfo) (viaVerify : Bool) (c :
     if c.extAttrs.any (fun a => match a.key with
         | .int i => Generated.coseSystemIntLabels.contains i
         | .text s => Generated.coseSystemTextLabels.contains s) then some "specification_header_among_attributes"
+    else if !((Cose.critLabels e.prot).all fun l => (Cose.get e.prot l).isSome) then some "critical_label_names_no_present_header"
     else attrsRules (Cose.extAttrsOf e) c.extAttrs
   | _ => none
 
